@@ -86,6 +86,8 @@ def render(e):
         return e[1]
     if e[0] == "raw1":
         return e[1] % render(e[2])
+    if e[0] == "switchx":
+        return "(switch (%s) %s)" % (render(e[1]), " ".join("case %s -> %s" % (a[0], render(a[2])) for a in e[2]))
     return _orig_render(e)
 
 
@@ -130,6 +132,12 @@ def analyse(e, bound, info):
         return
     if t == "var":
         read(e[1], bound, info)
+        return
+    if t == "switchx":
+        analyse(e[1], bound, info)
+        for (psrc, names, body) in e[2]:
+            b2 = set(bound) | set(names)       # a pattern's names exist in its own arm only
+            analyse(body, b2, info)
         return
     if t == "list":
         for x in e[1]:
@@ -272,10 +280,44 @@ def has_eval(e):
     return False
 
 
+# switch: the property's vocabulary has it, the C05 grammar does not. Patterns bind a fresh name (q), shadow an outer name (y) or
+# the parameter (x), or bind nothing; arm bodies read / assign / declare those names, so that a name bound by one arm is free in the others.
+SW_SCRUT = [V("x"), ("list", [V("x"), V("y")])]
+SW_PATS = [("q", ["q"]), ("[q]", ["q"]), ("y", ["y"]), ("[q, y]", ["q", "y"]), ("1", []), ("_", []), ("[x, _]", ["x"]), ("(q: int)", ["q"])]
+SW_BODIES = [V("q"), V("y"), ("bin", "+", V("y"), I(100)), ("list", [V("x"), V("y"), V("z")]), ("set", "y", I(5)), ("seq", [("decl", "q", I(1)), V("q")]),
+             ("set", "q", I(5)), ("raw", "(1 f1 2 f2 3)"), ("lambda", [], V("y")), ("call", ("lambda", [], V("q")), [])]
+
+
+def switch_bodies(tier):
+    pats = SW_PATS if tier != "quick" else SW_PATS[:6]
+    bods = SW_BODIES if tier != "quick" else SW_BODIES[:7]
+    arms = [(p[0], p[1], b) for p in pats for b in bods]
+    for sc in SW_SCRUT:
+        for a in arms:
+            yield ("switchx", sc, [a])
+        for a in arms:
+            for b in arms:
+                yield ("switchx", sc, [a, b])
+    if tier != "quick":
+        core = [(p[0], p[1], b) for p in SW_PATS[:5] for b in SW_BODIES[:5]]
+        for a in core:
+            for b in core:
+                for c in core:
+                    yield ("switchx", SW_SCRUT[1], [a, b, c])
+        # a switch nested in a construct that has its own scope, and constructs nested in an arm
+        for a in core:
+            for b in core:
+                sw = ("switchx", V("x"), [a, b])
+                yield ("for", [("each", "q", V("z"))], ("yield", sw, None))
+                yield ("lambda", [("p", "q")], sw)
+                yield ("seq", [("decl", "q", I(7)), sw, V("q")])
+                yield ("try", ("throw", V("x")), "q", sw)
+
+
 def bounds(tier):
     n = 3 if tier == "quick" else 4
     return {"body_max_nodes": n, "bodies": sum(len(bodies(k)) for k in range(1, n + 1)), "arguments": len(ARGS),
-            "feature_families": [f for f, _ in c05.FAMILIES if f != "eval"], "outer_names": sorted(OUTER_NAMES), "unbound_name": "w"}
+            "feature_families": [f for f, _ in c05.FAMILIES if f != "eval"] + ["switch"], "switch_bodies": sum(1 for _ in switch_bodies(tier)), "outer_names": sorted(OUTER_NAMES), "unbound_name": "w"}
 
 
 def cases(tier, shard, nshards):
@@ -309,6 +351,11 @@ def cases(tier, shard, nshards):
             if tier == "quick" and j % 4:
                 continue
             yield mk(body, fam, 9)
+    for body in switch_bodies(tier):
+        cnt += 1
+        if cnt % nshards != shard:
+            continue
+        yield mk(body, "switch", 9)
 
 
 def nontrivial(case, rs):
